@@ -335,4 +335,171 @@ Proof.
   exists sy, ay. auto 10.
 Qed.
 
+(* ================= generic SI value -> named quantity ================= *)
+Theorem as_quantity_iff : forall sg a c q, get_class T c = Some q ->
+  ((exists v, as_quantity N M (VSI sg a) (Some c) = Val v) <-> cls_sig q = sg) /\
+  (cls_sig q = sg -> exists b, qc_base q = GStr b /\ as_quantity N M (VSI sg a) (Some c) = Val (VNamed c a b)) /\
+  (cls_sig q <> sg -> as_quantity N M (VSI sg a) (Some c) = Raise ValueError).
+Proof.
+  intros sg a c q Ec. unfold as_quantity. rewrite (class_sig_ok _ _ Ec).
+  destruct (mk_base_ok c q a Ec) as (b & Hb & Hm).
+  destruct (sig_eqb (cls_sig q) sg) eqn:E.
+  - apply sig_eqb_eq in E. repeat split; eauto; try congruence.
+  - assert (Hne : cls_sig q <> sg) by (intros Heq; rewrite Heq, sig_eqb_refl in E; discriminate).
+    repeat split; try congruence. intros (v & Hv). discriminate.
+Qed.
+
+Theorem as_quantity_non_class : forall sg a, as_quantity N M (VSI sg a) None = Raise TypeError.
+Proof. reflexivity. Qed.
+
+(* ================= + - and comparisons ================= *)
+
+(* operands of different types (different classes, named against SI, different
+   signatures, a quantity against a number or any other object): + and - raise,
+   the four orderings raise TypeError, == is False and != is True *)
+Theorem mixed_add_sub_refused : forall op x y,
+  op = Add \/ op = Sub ->
+  is_quantity N x = true \/ is_quantity N y = true ->
+  same_type N x y = false ->
+  exists e, BinEval op x y = Raise e.
+Proof.
+  intros op x y Hop Hq Hs. unfold binop_eval.
+  destruct x as [c a u|sg a|v|]; destruct y as [c2 b u2|sg2 b|w|]; simpl in *;
+    try (destruct Hq; discriminate);
+    destruct Hop as [-> | ->]; simpl; try rewrite Hs; simpl; eauto.
+Qed.
+
+Theorem mixed_compare_refused : forall o x y,
+  is_quantity N x = true \/ is_quantity N y = true ->
+  same_type N x y = false ->
+  BinEval (Cmp o) x y =
+    match o with CEq => Val (OBool false) | CNe => Val (OBool true) | _ => Raise TypeError end.
+Proof.
+  intros o x y Hq Hs. unfold binop_eval.
+  destruct x as [c a u|sg a|v|]; destruct y as [c2 b u2|sg2 b|w|]; simpl in *;
+    try (destruct Hq; discriminate);
+    try rewrite Hs; try (rewrite Nat.eqb_sym in Hs; rewrite Hs);
+    try (rewrite sig_eqb_sym in Hs; rewrite Hs); destruct o; reflexivity.
+Qed.
+
+(* same type: + - and the comparisons act on the SI values; the result of + -
+   has the left operand's class (signature) and unit *)
+Theorem same_type_named : forall c a u b v q, get_class T c = Some q ->
+  BinEval Add (VNamed c a u) (VNamed c b v) = Val (OVal (VNamed c (fadd N a b) u)) /\
+  BinEval Sub (VNamed c a u) (VNamed c b v) = Val (OVal (VNamed c (fsub N a b) u)) /\
+  forall o, BinEval (Cmp o) (VNamed c a u) (VNamed c b v) = Val (OBool (cmp_nums N o a b)).
+Proof.
+  intros c a u b v q Ec. unfold binop_eval. simpl. rewrite Nat.eqb_refl.
+  rewrite !(q_val_ok _ _ _ _ Ec). simpl. repeat split.
+Qed.
+
+Theorem same_type_si : forall sg a b,
+  BinEval Add (VSI sg a) (VSI sg b) = Val (OVal (VSI sg (fadd N a b))) /\
+  BinEval Sub (VSI sg a) (VSI sg b) = Val (OVal (VSI sg (fsub N a b))) /\
+  forall o, BinEval (Cmp o) (VSI sg a) (VSI sg b) = Val (OBool (cmp_nums N o a b)).
+Proof.
+  intros sg a b. unfold binop_eval. simpl. rewrite sig_eqb_refl. simpl. repeat split.
+Qed.
+
+(* the pinned SI.__sub__ (type test only) does subtract values of different signatures *)
+Theorem si_sub_pinned_accepts_mixed : forall sg sg2 a b,
+  si_sub_pinned N sg a (VSI sg2 b) = Val (VSI sg (fsub N a b)).
+Proof. reflexivity. Qed.
+
+(* ================= C17: construction, display value, re-expression, unary operators ================= *)
+
+(* cls(value, unit) stores value * factor and remembers the unit *)
+Theorem mk_stores_value_times_factor : forall c q u f n d x,
+  get_class T c = Some q -> glookup u (qc_units q) = Some (GFac f n d) ->
+  Mk c (VNum x) (Some u) = Val (VNamed c (fmul N x (ffac N f n d)) u).
+Proof.
+  intros c q u f n d x Ec Hu. unfold mk, with_class. fold T. rewrite Ec.
+  unfold gmem. rewrite Hu. simpl. unfold class_factor. rewrite Hu. reflexivity.
+Qed.
+
+Theorem mk_unknown_unit_refused : forall c q u x,
+  get_class T c = Some q -> glookup u (qc_units q) = None ->
+  Mk c x (Some u) = Raise ValueError.
+Proof.
+  intros c q u x Ec Hu. unfold mk, with_class. fold T. rewrite Ec. unfold gmem. rewrite Hu. reflexivity.
+Qed.
+
+Theorem mk_non_number_refused : forall c q u x,
+  get_class T c = Some q -> (forall k, x <> VNum k) -> Mk c x (Some u) = Raise ValueError.
+Proof.
+  intros c q u x Ec Hx. unfold mk, with_class. fold T. rewrite Ec.
+  destruct (negb (gmem u (qc_units q))); [reflexivity|].
+  destruct x; try reflexivity. exfalso. eapply Hx. reflexivity.
+Qed.
+
+(* the display value of a freshly constructed quantity is the value it was built from
+   (exactly, in a number structure satisfying the laws; up to rounding in binary64) *)
+Theorem displayvalue_of_mk : forall c q u f n d x,
+  get_class T c = Some q -> glookup u (qc_units q) = Some (GFac f n d) -> n <> 0%Z ->
+  displayvalue N M (VNamed c (fmul N x (ffac N f n d)) u) = Val x.
+Proof.
+  intros c q u f n d x Ec Hu Hn. unfold displayvalue, with_class. fold T. rewrite Ec.
+  unfold class_factor. rewrite Hu. unfold checked_div.
+  rewrite (law_fac_nonzero N L f n d Hn). rewrite (law_div_mul N L); auto using (law_fac_nonzero N L).
+Qed.
+
+(* re-expression in another declared unit: the SI value is untouched, the unit is the new one *)
+Theorem as_unit_preserves_si : forall c q a u u',
+  get_class T c = Some q -> gmem u' (qc_units q) = true ->
+  as_unit N M (VNamed c a u) u' = Val (VNamed c a u').
+Proof.
+  intros c q a u u' Ec Hu. unfold as_unit, with_class. fold T. rewrite Ec, Hu. simpl.
+  apply (q_val_ok _ _ _ _ Ec).
+Qed.
+
+Theorem as_unit_unknown_refused : forall c q a u u',
+  get_class T c = Some q -> gmem u' (qc_units q) = false ->
+  as_unit N M (VNamed c a u) u' = Raise ValueError.
+Proof.
+  intros c q a u u' Ec Hu. unfold as_unit, with_class. fold T. rewrite Ec, Hu. reflexivity.
+Qed.
+
+(* negation, absolute value, unary plus: on the SI value, unit kept *)
+Theorem unary_named : forall c q a u, get_class T c = Some q ->
+  unop_eval N M Neg (VNamed c a u) = Val (OVal (VNamed c (fneg N a) u)) /\
+  unop_eval N M Abs (VNamed c a u) = Val (OVal (VNamed c (fabs N a) u)) /\
+  unop_eval N M Pos (VNamed c a u) = Val (OVal (VNamed c a u)).
+Proof.
+  intros c q a u Ec. simpl. rewrite !(q_val_ok _ _ _ _ Ec). simpl. repeat split.
+Qed.
+
+(* equality, ordering, +, - of two quantities of one class do not look at the
+   units the operands are expressed in (only the left unit is carried over) *)
+Theorem ops_depend_only_on_si : forall c q a b u v u' v', get_class T c = Some q ->
+  (forall o, BinEval (Cmp o) (VNamed c a u) (VNamed c b v) = BinEval (Cmp o) (VNamed c a u') (VNamed c b v')) /\
+  (forall op r, op = Add \/ op = Sub ->
+     BinEval op (VNamed c a u) (VNamed c b v) = Val (OVal r) ->
+     exists x, r = VNamed c x u /\ BinEval op (VNamed c a u') (VNamed c b v') = Val (OVal (VNamed c x u'))).
+Proof.
+  intros c q a b u v u' v' Ec. split.
+  - intros o. destruct (same_type_named c a u b v q Ec) as (_ & _ & H1).
+    destruct (same_type_named c a u' b v' q Ec) as (_ & _ & H2). rewrite H1, H2. reflexivity.
+  - intros op r Hop H.
+    destruct (same_type_named c a u b v q Ec) as (A1 & S1 & _).
+    destruct (same_type_named c a u' b v' q Ec) as (A2 & S2 & _).
+    destruct Hop as [-> | ->].
+    + rewrite A1 in H. inv H. eauto.
+    + rewrite S1 in H. inv H. eauto.
+Qed.
+
+(* str(q) never raises for a declared unit when the display table holds strings:
+   the text after the number is the display spelling of the unit *)
+Theorem str_total : forall c q a u f n d,
+  display_units_ok T = true ->
+  get_class T c = Some q -> glookup u (qc_units q) = Some (GFac f n d) -> n <> 0%Z ->
+  exists s, str_suffix N M (VNamed c a u) = Val s /\ display_of q u = GStr s.
+Proof.
+  intros c q a u f n d Hdisp Ec Hu Hn. unfold str_suffix.
+  assert (Hdv : exists x, displayvalue N M (VNamed c a u) = Val x).
+  { unfold displayvalue, with_class. fold T. rewrite Ec. unfold class_factor. rewrite Hu.
+    unfold checked_div. rewrite (law_fac_nonzero N L f n d Hn). eauto. }
+  destruct Hdv as (x & ->). unfold with_class. fold T. rewrite Ec.
+  destruct (display_of_is_string T Hdisp c q u Ec) as (s & Hs). rewrite Hs. eauto.
+Qed.
+
 End Proofs.
